@@ -132,6 +132,23 @@ func justified(t *an.Terms, ff *an.FuncFacts, fn *ssa.Function, v ssa.Value, fs 
 	if b, isB := v.Type().Underlying().(*types.Basic); isB && b.Kind() == types.Bool && fs.Has(an.B(term)) {
 		return "true on the path", true
 	}
+	// the constant true written out where a tier's own answer is known to be true on the path
+	// (`if tier.Has(x) { return true, nil }` for `if ok := tier.Has(x); ok { return ok, nil }`)
+	if k, isK := v.(*ssa.Const); isK && k.Value != nil && k.Value.ExactString() == "true" {
+		hit := ""
+		an.Instrs(fn, func(in ssa.Instruction) {
+			call, isCall := in.(*ssa.Call)
+			if !isCall {
+				return
+			}
+			if bt, isBool := call.Type().Underlying().(*types.Basic); isBool && bt.Kind() == types.Bool && fs.Has(an.B(t.Of(call))) {
+				hit = an.Stable(t.Of(call))
+			}
+		})
+		if hit != "" {
+			return "true where " + hit + " is true", true
+		}
+	}
 	switch x := v.(type) {
 	case *ssa.Extract:
 		call, isCall := x.Tuple.(*ssa.Call)
